@@ -155,6 +155,22 @@ def nat_orth_unocc(rng):
             d = D[ik][s]
             yo = Y[ik][s][:, at.occ.f[ik][s] > 0]
             e = max(e, np.abs(d.conj().T @ at.O(d) - np.eye(2)).max(), np.abs(d.conj().T @ at.O(yo)).max())
+    # badly conditioned but full-rank trial sets that lie almost inside the occupied space (Z = Y C + eps R): the part outside is tiny, the result is still
+    # orthonormal to round-off (measured 2e-15 on the unchanged tree down to eps = 1e-7: projecting first and orthonormalising the remainder is stable)
+    for eps in (1e-3, 1e-5, 1e-6, 1e-7):
+        Zn = []
+        for ik in range(at.kpts.Nk):
+            z = np.empty_like(Z[ik])
+            for s in range(2):
+                yo = np.asarray(Y[ik][s])[:, np.asarray(at.occ.f[ik][s]) > 0]
+                z[s] = yo @ rnd(rng, yo.shape[1], 2) + eps * Z[ik][s]
+            Zn.append(z)
+        Dn = orth_unocc(at, Y, Zn)
+        for ik in range(at.kpts.Nk):
+            for s in range(2):
+                d = np.asarray(Dn[ik][s])
+                yo = np.asarray(Y[ik][s])[:, np.asarray(at.occ.f[ik][s]) > 0]
+                e = max(e, np.abs(d.conj().T @ at.O(d) - np.eye(2)).max(), np.abs(d.conj().T @ at.O(yo)).max())
     # trial sets of tiny norm give the same orthonormal unoccupied orbitals
     Ds = orth_unocc(at, Y, [1e-6 * z for z in Z])
     for ik in range(at.kpts.Nk):
@@ -386,6 +402,14 @@ def nat_get_psi(rng):
         nrm = np.sqrt(np.real(np.einsum("sgi,sgi->si", wn.conj(), np.stack([np.asarray(at.O(wn[sp])) for sp in range(wn.shape[0])]))))
         Wn.append(wn / nrm[:, None, :])
     err = max(err, float(np.abs(eps - np.asarray(get_epsilon(scf, Wn, **pre))).max()), float(np.abs(eps - np.asarray(get_epsilon(scf, [3.0 * w for w in W], **pre))).max()))
+    # orbitals of small norm (overlap eigenvalues of 1e-10) and a mixing with condition number 1e4: still the same spectrum (compared on the scale 1e-5 for
+    # the ill-conditioned case: round-off grows with the condition number)
+    err = max(err, float(np.abs(eps - np.asarray(get_epsilon(scf, [1e-5 * y for y in Y], **pre))).max()))
+    Wc = []
+    for y in Y:
+        u, _, vh = np.linalg.svd(rnd(rng, y.shape[-1], y.shape[-1]))
+        Wc.append(y @ (u * np.logspace(0, -4, y.shape[-1])) @ vh)
+    err = max(err, float(np.abs(eps - np.asarray(get_epsilon(scf, Wc, **pre))).max()) / 1e3)
     for ik in range(at.kpts.Nk):
         for s in range(2):
             p = np.asarray(psi[ik][s])
@@ -687,6 +711,19 @@ def nat_grad_span(rng):
     for ik in range(at.kpts.Nk):
         g = get_grad(scf, ik, 0, W)
         e = max(e, np.abs(W[ik][0].conj().T @ g).max() / max(1.0, np.abs(g).max()))
+    # the energy does not change under invertible mixing of the orbitals - in particular not under a change of their overall scale, down to small norms
+    from eminus.energies import get_E
+
+    def E(Wx):
+        scf.W = Wx
+        scf._precompute()
+        return float(get_E(scf))
+
+    e0 = E([w.copy() for w in W])
+    for sc in (1e-2, 1e-4, 1e-5, 1e3):
+        e = max(e, abs(E([sc * w for w in W]) - e0) / max(1.0, abs(e0)))
+    M = np.eye(W[0].shape[-1]) + 0.4 * rnd(rng, W[0].shape[-1], W[0].shape[-1])
+    e = max(e, abs(E([w @ M for w in W]) - e0) / max(1.0, abs(e0)))
     return e
 
 
@@ -790,6 +827,23 @@ def _nat_phi_err(rng, at):
     e = max(e, abs(phi[0]))
     m = rng.random(at.Ns)
     e = max(e, np.abs(get_phi(at, 2 * n + m) - 2 * phi - get_phi(at, m)).max())
+    # fields whose grid sum is EXACTLY zero (a +1 / -1 double layer, the Nyquist cosine of an even axis): the G = 0 coefficient is 0 / 0 before it is
+    # removed; field and energy stay finite, the mean is zero, the energy is >= 0
+    from eminus.energies import get_Ecoul
+
+    layer = np.zeros(at.Ns)
+    layer[0], layer[at.Ns // 3] = 1.0, -1.0
+    fields = [layer]
+    s_ = np.asarray(at.s)
+    if s_[0] % 2 == 0:
+        idx = np.arange(at.Ns) // (s_[1] * s_[2])
+        fields.append(np.where(idx % 2 == 0, 1.0, -1.0))
+    for fld in fields:
+        ph = np.asarray(get_phi(at, fld))
+        ec = float(get_Ecoul(at, fld))
+        if not np.all(np.isfinite(ph)) or not np.isfinite(ec):
+            return 1.0
+        e = max(e, abs(ph[0]), max(0.0, -ec))
     return e
 
 
@@ -1007,7 +1061,7 @@ def _register_bounded2():
                         doc="BOUNDED stand-in: band-energy derivative relation at orthonormal coefficients (fixed Hamiltonian)"))
 
 
-def nat_grad_coarse_even_grid(xc, s=(6, 6, 8), pot="gth", unrestricted=None, kmesh=None, setk=None, species=("Li", "H")):
+def nat_grad_coarse_even_grid(xc, s=(6, 6, 8), pot="gth", unrestricted=None, kmesh=None, setk=None, species=("Li", "H"), switch_from=None):
     def f(rng):
         """The derivative relation for a functional family / external potential / sampling; s = (6, 6, 8) is a user-chosen COARSE EVEN
         sampling (smaller than the default one): products of orbitals reach the Nyquist planes of the FFT box."""
@@ -1025,7 +1079,12 @@ def nat_grad_coarse_even_grid(xc, s=(6, 6, 8), pot="gth", unrestricted=None, kme
             at.kpts.kmesh = list(kmesh)
         if setk:
             at.set_k(*setk)
-        scf = SCF(at, xc=xc, pot=pot, verbose="critical")
+        if switch_from is None:
+            scf = SCF(at, xc=xc, pot=pot, verbose="critical")
+        else:
+            # the object is created with another potential (pseudopotential data of species with projectors), the potential is switched afterwards
+            scf = SCF(at, xc=xc, pot=switch_from, verbose="critical")
+            scf.pot = pot
         at = scf.atoms
         W = [np.asarray(w) for w in guess_random(scf)]
         W = [w @ (np.eye(w.shape[-1]) + 0.3 * rnd(rng, w.shape[-1], w.shape[-1])) for w in W]
@@ -1114,6 +1173,12 @@ def _register_families():
                                           what="slope of the total energy vs 2 Re<grad, D>: TPSS, unrestricted, two k-points with weights (0.3, 0.7)"),
                         budget={"quick": 300, "thorough": 600}, doc="BOUNDED: derivative relation for a meta-GGA with unequal k-point weights (tau and its potential carry the same weights); default sampling (11, 11, 14): "
                             "on a coarser one aliasing gives grid points with tau < |grad n|^2 / (8 n) where Libxc clamps its inputs (1e-5 at (7, 7, 9) with unequal weights)"))
+    for newpot in ("harmonic", "coulomb"):
+        register(Obligation(name=f"C01.total_energy.slope_eq_2Re_grad_D.family.potential_switched_gth_to_{newpot}", prop="C01", engine="B", bounded=True,
+                            functions=["eminus.dft:get_grad", "eminus.dft:H", "eminus.energies:get_Enonloc", "eminus.gth:calc_Vnonloc", "eminus.scf:SCF.pot"],
+                            run=BoundedNative(nat_grad_coarse_even_grid("lda,vwn", s=(9, 9, 11), pot=newpot, unrestricted=True, species=("Si", "C"), switch_from="gth"), 1, tol=1e-6,
+                                              what=f"slope of the total energy vs 2 Re<grad, D>: SCF created with GTH (Si, C: projectors), then pot = {newpot!r}"),
+                            budget={"quick": 300, "thorough": 600}, doc="BOUNDED: derivative relation after the potential of an existing SCF object was switched (energy and H use the same set of terms)"))
     register(Obligation(name="C01.total_energy.slope_eq_2Re_grad_D.family.mgga_tpss_one_shifted_kpoint", prop="C01", engine="B", bounded=True,
                         functions=["eminus.dft:get_grad", "eminus.gga:get_tau", "eminus.gga:calc_Vtau", "eminus.energies:get_E"],
                         run=BoundedNative(nat_grad_coarse_even_grid(":MGGA_X_TPSS,:MGGA_C_TPSS", s=(11, 11, 14), unrestricted=False, setk=([[0.2, 0.1, 0.05]], [1.0])), 1, tol=1e-6,
@@ -1489,6 +1554,16 @@ def nat_stored_field(rng):
         E_int = 0.5 * float(np.sum(n * phir)) * float(at.Omega) / len(phir)
         e = max(e, abs(float(scf.energies.Ecoul) - E_int) / abs(E_int), abs(float(get_Ecoul(at, scf.n)) - E_int) / abs(E_int))
         worst = max(worst, e)
+    # after SCF.recenter by a vector that is not a grid vector (coarse even sampling: the shifted density is the real part of a shifted field):
+    # whatever Hartree field the object holds afterwards is the field of the density it holds
+    at = Atoms(["Li", "H"], [[1.0, 1.2, 0.9], [1.3, 1.1, 3.9]], ecut=4, a=[10.0, 9.0, 8.0])
+    at.s = [12, 12, 10]
+    scf = SCF(at, xc="lda,vwn", opt={"pccg": 4}, etol=1e-14, verbose="critical")
+    scf.run()
+    scf.recenter(center=[4.1, 3.3, 2.7])
+    if scf.phi is not None and scf.n is not None:
+        ref = np.asarray(get_phi(scf.atoms, scf.n))
+        worst = max(worst, float(np.abs(np.asarray(scf.phi) - ref).max() / np.abs(ref).max()))
     return worst
 
 
